@@ -56,18 +56,35 @@ theorem C04_unsync_excess_gone_after {p : Params} (hq : NoQuirks p) (hsm : Small
     (hn : s.map.length ≤ ops.length * EVICTION_BATCH_SIZE) : (runState p s ops).ws ≤ c :=
   lookups_work_off' sketchLaws hq hsm hcap ops s hi hall hn
 
-/-- C04 (d), the trace oracle: for every configuration and every history, on every
-`snapshot, op, snapshot` triple of the trace, the residents weigh at most `max_capacity` after
-the operation if they did before, unless the operation is an in-place update that made its
-entry heavier; and a fresh key heavier than `max_capacity` is never resident afterwards. -/
+/-- C04 (c) on traces: on every `snapshot, get/contains_key, snapshot` triple of every history,
+if the residents weighed more than `max_capacity` before the lookup, then afterwards they are
+within the capacity or a full eviction batch of entries has left. -/
+theorem C04_unsync_worked_off (p : Params) (hq : NoQuirks p) (hsm : SmallSketch p) (c : Nat)
+    (hcap : p.cap = some c) (h : List Op) :
+    Spec.workedOffC04 c Gen.UNSYNC_EVICTION_BATCH_SIZE (Unsync.trace p h) = true :=
+  workedOffC04_run sketchLaws hq hsm hcap h.length h (Nat.le_refl _) {} (init_inv sketchLaws p)
+
+/-- C04 (a), (b) on traces: on every `snapshot, op, snapshot` triple the residents weigh at most
+`max_capacity` after the operation if they did before, unless the operation is an in-place
+update that made its entry heavier; and a fresh key heavier than `max_capacity` is never
+resident afterwards. -/
+theorem C04_unsync_bound (p : Params) (hq : NoQuirks p) (hsm : SmallSketch p) (c : Nat)
+    (hcap : p.cap = some c) (h : List Op) :
+    Spec.boundC04 c (Unsync.trace p h) = true :=
+  boundC04_run sketchLaws hq hsm hcap h.length h (Nat.le_refl _) {} {}
+    (init_inv sketchLaws p) (init_coupled p)
+
+/-- C04, the trace oracle (both conjuncts: the bound and the working-off of an excess), for
+every configuration and every history. -/
 theorem C04_unsync (p : Params) (hq : NoQuirks p) (hsm : SmallSketch p) (h : List Op) :
     Spec.oracleC04 .unsync p.cap (Unsync.trace p h) = true := by
-  unfold Spec.oracleC04 Unsync.trace
+  unfold Spec.oracleC04
   cases hcap : p.cap with
   | none => rfl
   | some c =>
-    exact boundC04_run sketchLaws hq hsm hcap h.length h (Nat.le_refl _) {} {}
-      (init_inv sketchLaws p) (init_coupled p)
+    dsimp only
+    rw [C04_unsync_bound p hq hsm c hcap h, C04_unsync_worked_off p hq hsm c hcap h]
+    rfl
 
 /-! ### non-vacuity -/
 
@@ -87,6 +104,33 @@ example :
     let p : Params := { cap := some 3, hasWeigher := true, w := fun _ v => v % 10 }
     (runState p {} [.ins 1 1, .ins 2 1, .ins 1 5]).ws = 6 ∧
     (runState p {} [.ins 1 1, .ins 2 1, .ins 1 5, .has 9]).ws ≤ 3 := by
+  decide +kernel
+
+/-- The working-off clause bites: over capacity before a `get`, still over capacity after it,
+and no entry gone — rejected (by `workedOffC04`; `boundC04` alone accepts this trace). -/
+example :
+    let sn : Snap :=
+      { ec := 2, ws := 6,
+        entries := [{ key := 1, val := 5, weight := 5, la := none, lm := none, aoOk := true, woOk := true },
+                    { key := 2, val := 1, weight := 1, la := none, lm := none, aoOk := true, woOk := true }],
+        prob := [], wo := [], skOn := false, skSize := 0, skSample := 0, skLen := 0, skCrc := 0,
+        freqs := [] }
+    let t : Spec.Trace := [(.snap, .snap sn), (.get 2, .val (some 1)), (.snap, .snap sn)]
+    Spec.boundC04 3 t = true ∧ Spec.workedOffC04 3 Gen.UNSYNC_EVICTION_BATCH_SIZE t = false ∧
+      Spec.oracleC04 .unsync (some 3) t = false := by
+  decide +kernel
+
+/-- A model trace with a growing update (weight 1 → 5, capacity 3) followed by lookups: the
+excess is there at the snapshot before the lookup (weight 6) and gone after it (the LRU
+resident of weight 1 does not cover the excess of 3, so the heavy one leaves too); accepted. -/
+example : Spec.workedOffC04 3 Gen.UNSYNC_EVICTION_BATCH_SIZE (Unsync.trace
+    { cap := some 3, hasWeigher := true, w := fun _ v => v % 10 }
+    [.ins 1 1, .ins 2 1, .ins 1 5, .snap, .get 2, .snap, .has 1, .snap]) = true ∧
+    (Unsync.trace { cap := some 3, hasWeigher := true, w := fun _ v => v % 10 }
+      [.ins 1 1, .ins 2 1, .ins 1 5, .snap, .get 2, .snap]).map
+      (fun oo => match oo.2 with
+        | .snap sn => Spec.snapWeight sn
+        | _ => 0) = [0, 0, 0, 6, 0, 0] := by
   decide +kernel
 
 /-- The oracle is not vacuous: it rejects a trace in which a fresh insert takes the residents
@@ -110,4 +154,6 @@ end MiniMoka
 #print axioms MiniMoka.Props.C04_unsync_oversized_never_retained
 #print axioms MiniMoka.Props.C04_unsync_excess_worked_off
 #print axioms MiniMoka.Props.C04_unsync_excess_gone_after
+#print axioms MiniMoka.Props.C04_unsync_worked_off
+#print axioms MiniMoka.Props.C04_unsync_bound
 #print axioms MiniMoka.Props.C04_unsync
